@@ -3,6 +3,6 @@ CONSTANTS Claims = {"c1", "c2", "c3"}  MaxNow = 1000  MaxFaults = 3  MaxEnv = 8 
           EA = 600  LT = 300  RT = 900  TolReady = 120  TolUnk = 90  TolDisk = 60  UnknownFirst = TRUE
           PoolBg = {0, 4, 5, 9, 10}  OtherBg = {0, 3}  MaxBad = 3  MaxDel = 2  ReadyVals = {"True", "False", "Unknown"}
           RoundedClock = {}  ExpireSlack = 0  ExpireNever = "check"  GcOnProvListError = "abort"  GcOnLookupError = "skip"  GcReady = "check"  NotFoundAsEmpty = {}  GcReadOrder = "claimsFirst"  LiveGate = "registered"
-          LiveSlack = 0  RepairSlack = 0  RepairTolBy = "policy"  RepairExtra = 0  RepairScope = "pool"  RepairOnListError = "abort"  RepairTerminating = "count"
+          LiveSlack = 0  RepairSlack = 0  RepairTolBy = "policy"  RepairAnnotated = "check"  RepairExtra = 0  RepairScope = "pool"  RepairOnListError = "abort"  RepairTerminating = "count"
 SPECIFICATION Spec
 INVARIANTS GenPrint
